@@ -133,6 +133,36 @@ def _inline_closure(cx, cdef, clocal, arg_ops, ret_to, sp):
     return entry, lo, cal["locals"][0]["ty"]
 
 
+def _desugar_bool_then(cx, bb, name):
+    """b.then(|| v) == if b { Some(v) } else { None };  b.then_some(v) likewise with v already evaluated"""
+    blk = cx.blocks[bb]
+    t = blk["term"]
+    args = t["args"]
+    D, cont, sp = t["dest"], t["to"], t["sp"]
+    if D["p"] or len(args) != 2:
+        return False
+
+    def set_dest(rv):
+        return cx.new_block([_assign(copy.deepcopy(D), rv, sp)], {"t": "goto", "to": cont, "sp": sp})
+
+    none = set_dest(_agg(OPT, "None", 0, []))
+    if name == "then_some":
+        some = set_dest(_agg(OPT, "Some", 1, [args[1]]))
+    else:
+        closure = _closure_def(cx.body, args[1])
+        if closure is None:
+            return False
+        join = cx.new_block([], {"t": "goto", "to": cont, "sp": sp})
+        r = _inline_closure(cx, closure[0], closure[1], [], join, sp)
+        if r is None:
+            return False
+        entry, lo, rty = r
+        cx.blocks[join]["st"].append(_assign(copy.deepcopy(D), _agg(OPT, "Some", 1, [{"m": _pl(lo, rty)}]), sp))
+        some = entry
+    blk["term"] = {"t": "switch", "on": args[0], "targets": [[0, none]], "otherwise": some, "sp": sp, "desugared": name, "desugared_adt": "bool", "desugared_dest": copy.deepcopy(D)}
+    return True
+
+
 def desugar_call(cx, bb):
     blk = cx.blocks[bb]
     t = blk["term"]
@@ -142,6 +172,8 @@ def desugar_call(cx, bb):
     if not f or f.get("local"):
         return False
     path, name = f.get("path", ""), f.get("name")
+    if path == "core::bool::<impl bool>::then" or path == "core::bool::<impl bool>::then_some":
+        return _desugar_bool_then(cx, bb, name)
     if path.startswith(OPT + "::<T>::") and name in OPTION_COMBINATORS:
         adt = OPT
     elif path.startswith(RES + "::<T, E>::") and name in RESULT_COMBINATORS:
@@ -308,6 +340,75 @@ def desugar_call(cx, bb):
     return True
 
 
+def _closure_origin(body, op, depth=0):
+    """follows whole-local moves / references from a callee operand back to a closure literal built in this
+    body. Returns (closure def key, local holding the closure value) or None"""
+    pl = op.get("m") or op.get("c")
+    if pl is None or pl["p"] or depth > 6:
+        return None
+    l = pl["l"]
+    defs = []
+    for blk in body["blocks"]:
+        for st in blk["st"]:
+            if st["s"] == "assign" and st["pl"]["l"] == l:
+                defs.append(st)
+        t = blk["term"]
+        if t["t"] == "call" and t["dest"]["l"] == l:
+            defs.append(t)
+    if len(defs) != 1 or defs[0].get("s") != "assign" or defs[0]["pl"]["p"]:
+        return None
+    rv = defs[0]["rv"]
+    if rv["r"] == "agg" and rv.get("kind") == "closure":
+        return rv["def"], l
+    if rv["r"] == "use":
+        return _closure_origin(body, rv["o"], depth + 1)
+    if rv["r"] == "ref" and not rv["pl"]["p"]:
+        return _closure_origin(body, {"c": rv["pl"]}, depth + 1)
+    if rv["r"] == "ref" and rv["pl"]["p"] == ["*"]:
+        return _closure_origin(body, {"c": {"l": rv["pl"]["l"], "p": [], "t": 0}}, depth + 1)
+    return None
+
+
+def devirtualize_call(cx, bb):
+    """`f(args)` where f is (a move / borrow of) a closure literal of this body — typically a closure handed to a
+    helper that has just been inlined: the closure body is expanded in place of the Fn*::call*"""
+    blk = cx.blocks[bb]
+    t = blk["term"]
+    if t["t"] != "call" or blk.get("cleanup") or t.get("to") is None or t["dest"]["p"]:
+        return False
+    f = t.get("f")
+    if not f or f.get("name") not in ("call_once", "call_mut", "call") or not (f.get("trait") or "").startswith("std::ops::Fn"):
+        return False
+    if len(t["args"]) != 2:
+        return False
+    org = _closure_origin(cx.body, t["args"][0])
+    if org is None:
+        return False
+    cdef, clocal = org
+    callee = cx.by_key.get(cdef)
+    if callee is None:
+        return False
+    nparams = callee["arg_count"] - 1
+    tup = t["args"][1]
+    tpl = tup.get("m") or tup.get("c")
+    arg_rvs = []
+    if nparams:
+        if tpl is None or tpl["p"]:
+            return False
+        for i in range(nparams):
+            ty = callee["locals"][2 + i]["ty"]
+            arg_rvs.append(_use({"m": _pl(tpl["l"], ty, [{"f": i, "n": str(i), "t": ty}])}))
+    sp = t["sp"]
+    join = cx.new_block([], {"t": "goto", "to": t["to"], "sp": sp})
+    r = _inline_closure(cx, cdef, clocal, arg_rvs, join, sp)
+    if r is None:
+        return False
+    entry, lo, rty = r
+    cx.blocks[join]["st"].append(_assign(copy.deepcopy(t["dest"]), _use({"m": _pl(lo, rty)}), sp))
+    blk["term"] = {"t": "goto", "to": entry, "sp": sp, "devirtualized": cdef}
+    return True
+
+
 def apply(raw_bodies, types, rounds=4):
     """returns {closure key: owner path} for the closures that were expanded in place"""
     by_key = {b["key"]: b for b in raw_bodies}
@@ -321,7 +422,7 @@ def apply(raw_bodies, types, rounds=4):
             n0 = len(b["blocks"])
             for i in range(n0):
                 before = len(b.get("inlined_closures", []))
-                if desugar_call(cx, i):
+                if desugar_call(cx, i) or devirtualize_call(cx, i):
                     changed = True
                     for k in b.get("inlined_closures", [])[before:]:
                         expanded[k] = b["path"]
